@@ -154,3 +154,13 @@ def run(res, facts, tier):
     from . import c01_ns
     c01_ns.run(res, facts)
     c01_ns.r4_literal_namespaces(res, facts)
+
+
+_run_c01_prev_scope = run
+
+
+def run(res, facts, tier):
+    _run_c01_prev_scope(res, facts, tier)
+    from . import c01_scope
+    c01_scope.run_rule(res, facts, tier)
+    c01_scope.r6_params(res, facts)
